@@ -145,7 +145,7 @@ func genC14(seed uint64) *Scenario {
 		for ph := 0; ph < nphases; ph++ {
 			idle := int64(0)
 			if r.chance(2, 3) {
-				idle = []int64{int64(time.Second) + 250*p, 2*int64(time.Second) + 400*p, int64(time.Hour)}[r.n(3)]
+				idle = []int64{int64(time.Second) + 250*p, 2*int64(time.Second) + 400*p, longIdle(r)}[r.n(3)]
 			}
 			phaseIdle = append(phaseIdle, idle)
 		}
@@ -242,7 +242,7 @@ func genC14(seed uint64) *Scenario {
 					if !lastHeavy {
 						base = lastD + p + s
 					}
-					idles := []int64{lastD / 2, base - p, base, base + 3*p, 2 * (lastD + s), 10 * (lastD + s), int64(time.Hour), p / 2, 3 * p,
+					idles := []int64{lastD / 2, base - p, base, base + 3*p, 2 * (lastD + s), 10 * (lastD + s), longIdle(r), p / 2, 3 * p,
 						base - p/2 + r.i64(3*p), base - p/2 + r.i64(3*p), base - p/2 + r.i64(3*p), base + r.i64(p)}
 					cl.Ops = append(cl.Ops, Op{Kind: OpIdle, IdleNs: idles[r.n(len(idles))]})
 					if r.chance(1, 2) {
@@ -314,6 +314,13 @@ func genC14(seed uint64) *Scenario {
 	viaUnmarshal(r, sc, 1, 6)
 	nameOps(sc)
 	return sc
+}
+
+// longIdle: an hour, or long enough for the tick counter (about a millisecond per tick) to pass 2^31 and 2^32
+// and for the time base to lie years back.
+func longIdle(r *rng) int64 {
+	day := 24 * int64(time.Hour)
+	return []int64{int64(time.Hour), int64(time.Hour), 26 * day, 50 * day, 3 * 365 * day}[r.n(5)]
 }
 
 func addRe(sc *Scenario, s ReSpec) int {
